@@ -138,6 +138,23 @@ def goal_for(rng, v, t):
     return ('call', C('eq', v, t))
 
 
+def bound_variable_inside(E, value, cap=5000):
+    """walks a value returned by get_value WITHOUT dereferencing: True if it contains a Variable that is bound right now"""
+    stack = [value]
+    n = 0
+    while stack:
+        n += 1
+        if n > cap:
+            return False
+        o = stack.pop()
+        if isinstance(o, E.Variable):
+            if o._is_bound:
+                return True
+        elif isinstance(o, E.Functor):
+            stack.extend(o._args)
+    return False
+
+
 def check_values(real, robs, exp, tp_at, saved, c, where, wrapped=None):
     """returns violation or None"""
     E = real.E
@@ -226,6 +243,7 @@ def run_case(ctx, seed, idx, tier):
         clauses = list(HELPERS) + [(head, gen.conj(goals))]
         if mode == 'findall':
             clauses.append((C('bag', V('B')), ('call', C('findall', C('r', *vs), head, V('B')))))
+            clauses.append((C('baglate', V('B')), ('and', ('call', C('findall', C('pair', vs[0], V('Late')), head, V('B'))), ('call', C('=', V('Late'), A('tag'))))))
         if mode == 'assert':
             clauses.append((A('store'), ('and', ('call', head), ('call', C('assertz', C('saved', *vs))))))
         src = rprogram(clauses, rng=rng)
@@ -241,10 +259,18 @@ def run_case(ctx, seed, idx, tier):
                 if mode == 'findall':
                     B = yp.variable()
                     n = 0
+                    # a template with a variable that is only bound AFTER the findall: whatever findall does with such
+                    # variables (share or copy), the value read at the answer must not hide a bound variable
+                    for _ in yp.query('baglate', [B]):
+                        if bound_variable_inside(E, E.get_value(B)):
+                            return viol({'kind': 'get_value_result_contains_a_bound_variable', 'detail': {'where': 'findall bag, template variable bound after the findall'}})
+                        c['late_bound_template_checked'] = c.get('late_bound_template_checked', 0) + 1
                     for _ in yp.query('bag', [B]):
                         n += 1
                         bag_tp = E.to_python(B) if not any(has_partial_list(e) for e in exp) else None
                         bag_saved = E.get_value(B)
+                        if bound_variable_inside(E, bag_saved):
+                            return viol({'kind': 'get_value_result_contains_a_bound_variable', 'detail': {'where': 'findall bag'}})
                     if n != 1:
                         return viol({'kind': 'answers', 'detail': {'expected': 1, 'got': n}})
                     c['findall_exports'] = 1
@@ -282,6 +308,8 @@ def run_case(ctx, seed, idx, tier):
                             return viol({'kind': 'to_python_raises', 'detail': {'exc': type(ex).__name__ + ': ' + str(ex)[:100]}})
                         # the documented idiom: collect get_value() results during the enumeration
                         saved = [v.get_value() for v in qv]
+                        if any(bound_variable_inside(E, sv) for sv in saved):
+                            return viol({'kind': 'get_value_result_contains_a_bound_variable', 'detail': {'where': 'compiled answer'}})
                         wrapped = None if any(has_partial_list(e) for e in exp) else E.to_python(yp.functor('w', list(qv)))
                         res.append((at, tp_at, saved, wrapped))
                     q.close()
